@@ -582,7 +582,19 @@ def nx_roundtrip_failure(kind, G, orc, rng=None):
     # must convert to the same object (theorems C16_*_networkx, general form)
     if rng is not None:
         Y = networkx.DiGraph() if kind == 'directed' else networkx.Graph()
-        for u in X.nodes():
+        nodes = list(X.nodes())
+        if kind == 'bipartite':
+            # vertices are numbered by node order WITHIN each side, so only the interleaving of the two sides is
+            # varied: a right node may now precede its left neighbours (networkx then reports the edge right-first)
+            left = [u for u in nodes if X.nodes[u].get('bipartite') == 0]
+            right = [u for u in nodes if X.nodes[u].get('bipartite') == 1]
+            nodes = []
+            while left or right:
+                if left and (not right or rng.random() < 0.5):
+                    nodes.append(left.pop(0))
+                else:
+                    nodes.append(right.pop(0))
+        for u in nodes:
             Y.add_node(u, **X.nodes[u])
         es = list(X.edges())
         rng.shuffle(es)
